@@ -406,12 +406,17 @@ func genC12() {
 		var defEnv [][2]string
 		var defNode ast.Node
 		envFmt, sep := "", ""
+		rangeKV := map[string]bool{}
 		var shell []string
 		var shellNode ast.Node
 		var lits [][2]string
 		ast.Inspect(fdImg, func(n ast.Node) bool {
 			switch x := n.(type) {
 			case *ast.RangeStmt:
+				// a loop with key and value (the one that renders the environment is among them), whatever the names
+				if x.Key != nil && x.Value != nil {
+					rangeKV[exprText(x.Key)+"\x00"+exprText(x.Value)] = true
+				}
 				if cl, ok := x.X.(*ast.CompositeLit); ok && defEnv == nil {
 					if _, isMap := cl.Type.(*ast.MapType); isMap {
 						defNode = x
@@ -430,9 +435,14 @@ func genC12() {
 						}
 					}
 				}
+			case *ast.BinaryExpr:
+				// `k + "=" + v` for `fmt.Sprintf("%s=%s", k, v)` (both operands are strings: keys and values of a map[string]string)
+				if f, args, ok := concatAsFormat(x); ok && len(args) == 2 && rangeKV[args[0]+"\x00"+args[1]] && envFmt == "" {
+					envFmt = f
+				}
 			case *ast.CallExpr:
 				t := exprText(x.Fun)
-				if t == "fmt.Sprintf" && len(x.Args) == 3 && exprText(x.Args[1]) == "k" && exprText(x.Args[2]) == "v" {
+				if t == "fmt.Sprintf" && len(x.Args) == 3 && rangeKV[exprText(x.Args[1])+"\x00"+exprText(x.Args[2])] {
 					if s, ok := strLit(x.Args[0]); ok {
 						envFmt = s
 					}
